@@ -287,6 +287,14 @@ fn contains_cycle(type_id: usize, program: &Program, seen: &mut Vec<usize>) -> b
             None => return false,
         },
         Some(Type::Partial { fields, .. }) => fields.iter().map(|(_, t)| *t).collect(),
+        Some(Type::Callable {
+            parameter,
+            result,
+            receive,
+        }) => vec![*parameter, *result, *receive],
+        Some(Type::Process { send, receive }) => {
+            send.iter().chain(receive.iter()).copied().collect()
+        }
         _ => return false,
     };
     children
